@@ -89,7 +89,7 @@ impl AttackCase {
 }
 
 fn site_static(s: &str) -> Option<&'static str> {
-    const SITES: [&str; 10] = ["rng_multi_seed", "rng_pair_seed", "fashare_dm", "dvalue_share", "beaver_d", "beaver_e", "garble_row", "own_input", "ot_choice", "garble_plain"];
+    const SITES: [&str; 11] = ["rng_multi_seed", "rng_pair_seed", "fashare_dm", "dvalue_share", "beaver_d", "beaver_e", "garble_row", "own_input", "ot_choice", "garble_plain", "fashare_dm_vec"];
     SITES.iter().copied().find(|x| *x == s)
 }
 
